@@ -400,6 +400,14 @@ func (r *runner) worker() {
 		}
 	}
 	for k, v := range ex.rangesAll {
+		if o, ok := r.ranges[k]; ok {
+			if o[0] < v[0] {
+				v[0] = o[0]
+			}
+			if o[1] > v[1] {
+				v[1] = o[1]
+			}
+		}
 		r.ranges[k] = v
 	}
 	r.axioms += ex.axioms
